@@ -50,7 +50,9 @@ def gen_files(ctx):
     spec = importlib.util.spec_from_file_location("gen_threshold_c11", p)
     mod = importlib.util.module_from_spec(spec)
     spec.loader.exec_module(mod)
-    return {"theories/Gen/ThresholdC11.v": mod.translate(ctx.staged_source("centrosome/threshold.py"))}
+    return {"theories/Gen/ThresholdC11.v": mod.translate(ctx.staged_source("centrosome/threshold.py"),
+                                                         ctx.staged_source("centrosome/smooth.py"),
+                                                         ctx.staged_source("centrosome/otsu.py"))}
 
 
 # ------------------------------------------------------------------ generation
